@@ -294,7 +294,7 @@ def run_replay(check_id, path, repo, as_json):
         print("pyx-model unavailable: %s" % backend.pyx_error())
         return 2
     backend.use("py" if be == "both" else be)
-    if rec.get("replay_mode") == "task":
+    if rec.get("replay_mode") == "task" or rec.get("case", {}).get("replay") == "task":
         task = rec["task"]
         with common.quiet():
             rr = mod.run_task(task)
